@@ -319,3 +319,59 @@ Proof.
   - clear - EC Hw. revert EC. destruct auto; eqbs.
   - clear - EK Hw. revert EK. destruct auto; eqbs.
 Qed.
+
+(* ------------------------------------------------------------------------------------------ *)
+(* 6. known finding C10-F7: the lend-initiated close of a cross-pool borrow whose lend position is gone *)
+Lemma settle_ok_not_stuck cf lk L xf nf x : settle cf lk L xf nf = Ok x -> kf_C10_7 lk = false.
+Proof.
+  unfold settle, kf_C10_7. destruct (l_init lk =? 2); [intros _; cbn [negb andb]; apply andb_false_r || (destruct (negb (l_init lk =? 0)); reflexivity)|].
+  destruct (l_init lk =? 0); [reflexivity|].
+  cbn [negb andb]. intros H. apply obind_ok in H as (L1 & _ & H). destruct (l_stuck lk); [discriminate|reflexivity].
+Qed.
+
+(* in the class no bid - market or automatic, of any amount, by anybody - ever closes the auction *)
+Lemma stuck_never_closes auto cf lk a s who amt wd twa s' r :
+  place_bid_gen auto cf lk a s who amt wd twa = Ok (s', None, r) -> kf_C10_7 lk = false.
+Proof.
+  intros E. unfold place_bid_gen in E.
+  destruct (amt <=? 0); [discriminate|]. destruct wd; [discriminate|].
+  apply obind_ok in E as (q & _ & E). apply obind_ok in E as (qb & _ & E).
+  destruct (_ || _).
+  - apply obind_ok in E as ([[[? ?] ?] ?] & _ & E).
+    apply obind_ok in E as (? & _ & E). apply obind_ok in E as (? & _ & E).
+    apply obind_ok in E as (? & _ & E). apply obind_ok in E as (? & _ & E).
+    destruct ((_ <? 0) || (_ <? 0)); [discriminate|]. apply obind_ok in E as ([[? ?] ?] & Hs & E).
+    exact (settle_ok_not_stuck _ _ _ _ _ _ Hs).
+  - apply obind_ok in E as (? & _ & E). apply obind_ok in E as (? & _ & E).
+    destruct (negb (_ >? dec_of_int _)); [discriminate|]. apply obind_ok in E as (? & _ & E).
+    apply obind_ok in E as (? & _ & E). apply obind_ok in E as (? & _ & E). apply obind_ok in E as (? & _ & E).
+    destruct ((_ <? 0) || (_ <? 0)); discriminate.
+Qed.
+
+(* outside the class the lend settlement goes through whenever the account holds the target debt *)
+Lemma lend_settle_live cf lk L xf nf :
+  l_init lk <> 0 -> l_init lk <> 2 -> kf_C10_7 lk = false -> 0 <= l_target lk <= L AUC_D ->
+  exists L', settle cf lk L xf nf = Ok (L', xf, nf) /\ L' POOL_D = L POOL_D + l_target lk /\ L' AUC_D = L AUC_D - l_target lk.
+Proof.
+  intros I0 I2 Hk Ht. unfold settle, kf_C10_7 in *.
+  destruct (Z.eqb_spec (l_init lk) 2); [contradiction|]. destruct (Z.eqb_spec (l_init lk) 0); [contradiction|].
+  cbn [negb andb] in Hk. rewrite Hk. unfold send. destruct (Z.ltb_spec (L AUC_D) (l_target lk)); [lia|].
+  cbn [oerr obind]. eexists. split; [reflexivity|]. unfold upd, AUC_D, POOL_D. cbn. lia.
+Qed.
+
+(* witness: a lend auction (collateral 1 000 000, target 1 050 000) of a bridged borrow whose lend position was
+   used up; the exact bid of a funded bidder panics *)
+Definition s_cf : acfg := mkCfg (12 * P18 / 10) (7 * P18 / 10) 3600 0 0 1000000 1000000.
+Definition s_lk : locked := mkLk 1000000 1050000 50000 0 1 false false true.
+Definition s_au : auction := mkAu 1000000 1050000 0 (24 * P18 * 100000) (24 * P18 * 100000) (2000000 * P18) (1000000 * P18) 0 3600.
+Definition s_led : ledger := fun k => if k =? 0 then 1000000 else if k =? 11 then 5000000 else 0.
+Lemma lend_close_stuck :
+  kf_C10_7 s_lk = true /\
+  place_bid_core s_cf s_lk s_au (mkS s_led None 0 0) 0 1050000 false 1000000 = Panic /\
+  place_bid_core s_cf s_lk s_au (mkS s_led None 0 0) 0 9999999 false 1000000 = Panic /\
+  (exists s' b r, place_bid_core s_cf s_lk s_au (mkS s_led None 0 0) 0 500000 false 1000000 = Ok (s', Some b, r)).
+Proof.
+  split; [reflexivity|]. split; [vm_compute; reflexivity|]. split; [vm_compute; reflexivity|].
+  destruct (place_bid_core s_cf s_lk s_au (mkS s_led None 0 0) 0 500000 false 1000000) as [[[s' [b|]] r]| |] eqn:E;
+    vm_compute in E; try discriminate. eauto.
+Qed.
